@@ -20,6 +20,7 @@ Decided:
     values including across the wrap: true iff they differ.
  E7 free-descriptor query: available_desc is folded over (in-use count, indirect flag, SIZE): it reports 0 exactly
     when every descriptor is in use and, for queues without indirect descriptors, exactly SIZE - in-use.
+ E12 driver level: bookkeeping keyed by a token is released only after the fallible pop succeeded (= C20.Z7).
 Not decided: exactly-once over histories (needs the free-list heap invariant).
 """
 from .common import *
